@@ -136,8 +136,10 @@ theorem recData_mem {rs : List Rev} {o : Oid} {d : Record} (h : recData rs o = s
   | cons r rs ih =>
     simp only [recData] at h
     split at h
-    · injection h with h
-      exact ⟨r, List.mem_cons_self, by assumption, h⟩
+    · split at h
+      · cases h
+      · injection h with h
+        exact ⟨r, List.mem_cons_self, by assumption, h⟩
     · obtain ⟨r', hr', h1, h2⟩ := ih h
       exact ⟨r', List.mem_cons_of_mem _ hr', h1, h2⟩
 
@@ -208,6 +210,79 @@ theorem loadSerialK_sound {k : Kind} {hist base : Hist} {o : Oid} {ser : Tid} {d
       rw [h1] at hl
       obtain ⟨t, ht, h2, h3⟩ := loadSerialS_sound hl
       exact ⟨t, Or.inr ht, h2, h3⟩
+
+
+/-! ### un-creation records cannot be loaded -/
+
+theorem recData_none_of_not_has {rs : List Rev} {o : Oid}
+    (h : rs.any (fun r => r.oid == o) = false) : recData rs o = none := by
+  induction rs with
+  | nil => rfl
+  | cons r rs ih =>
+    simp only [List.any_cons, Bool.or_eq_false_iff, beq_eq_false_iff_ne, ne_eq] at h
+    simp only [recData, h.1, if_false]
+    exact ih h.2
+
+theorem recData_none_of_deleted {rs : List Rev} {o : Oid} (h : recDeleted rs o = true) :
+    recData rs o = none := by
+  induction rs with
+  | nil => simp [recDeleted] at h
+  | cons r rs ih =>
+    simp only [recDeleted] at h
+    simp only [recData]
+    split
+    · rename_i ho
+      rw [if_pos ho] at h
+      simp [h]
+    · rename_i ho
+      rw [if_neg ho] at h
+      exact ih h
+
+theorem loadSerialFile_none_of_lt {h : Hist} {o : Oid} {ser : Tid} (hlt : ∀ t ∈ h, t.tid < ser) :
+    loadSerialFile h o ser = none := by
+  induction h with
+  | nil => rfl
+  | cons t h ih =>
+    simp only [loadSerialFile]
+    have h1 := hlt t List.mem_cons_self
+    have ih := ih (fun t' ht' => hlt t' (List.mem_cons_of_mem _ ht'))
+    cases t.data o with
+    | none => exact ih
+    | some d =>
+      simp only
+      rw [if_neg (by omega), if_pos h1]
+
+/-- `loadSerial(oid, tid of the current un-creation record)` raises POSKeyError -/
+theorem loadSerialFile_deleted {h : Hist} (hs : Sorted h) {o : Oid} {ct : Tid}
+    (hc : currentTid h o = some ct) (hd : currentDeleted h o = true) :
+    loadSerialFile h o ct = none := by
+  induction h with
+  | nil => simp [currentTid] at hc
+  | cons t h ih =>
+    rw [Sorted, List.pairwise_cons] at hs
+    simp only [currentTid] at hc
+    simp only [currentDeleted] at hd
+    simp only [loadSerialFile]
+    by_cases hh : t.has o = true
+    · rw [if_pos hh] at hc
+      have hh' : t.recs.any (fun r => r.oid == o) = true := hh
+      rw [if_pos hh'] at hd
+      injection hc with hc
+      have : t.data o = none := recData_none_of_deleted hd
+      rw [this]
+      apply loadSerialFile_none_of_lt
+      intro t' ht'
+      have := hs.1 t' ht'
+      omega
+    · rw [if_neg hh] at hc
+      have hh' : ¬ t.recs.any (fun r => r.oid == o) = true := hh
+      rw [if_neg hh'] at hd
+      have : t.data o = none := recData_none_of_not_has (by
+        cases hx : t.recs.any (fun r => r.oid == o) with
+        | true => exact absurd hx hh'
+        | false => rfl)
+      rw [this]
+      exact ih hs.2 hc hd
 
 /-! ### the store decision in kind-independent form -/
 
@@ -374,6 +449,10 @@ theorem step_nonholder (E : Env) (s : Sys) (t : TxnId) (op : Op) (hl : s.lock = 
     simp only [Op.actor] at ha
     have : ¬ (some t = some t') := fun h => ha (Option.some.inj h).symm
     simp [step, hl, this]
+  | delete t' oid serial =>
+    simp only [Op.actor] at ha
+    have : ¬ (some t = some t') := fun h => ha (Option.some.inj h).symm
+    simp [step, hl, this]
   | vote t' =>
     simp only [Op.actor] at ha
     have : ¬ (some t = some t') := fun h => ha (Option.some.inj h).symm
@@ -394,6 +473,7 @@ theorem step_idle (E : Env) (s : Sys) (op : Op) (hl : s.lock = none) :
   | begin t tid => right; exact ⟨t, tid, rfl⟩
   | store t oid serial data => left; simp [step, hl]
   | check t oid serial => left; simp [step, hl]
+  | delete t oid serial => left; simp [step, hl]
   | vote t => left; simp [step, hl]
   | finish t => left; simp [step, hl]
   | abort t => left; simp [step, hl]
